@@ -280,11 +280,13 @@ def values_for(a, tier, text):
         return one
     exact = [[one[(i + k) % len(one)] for i in range(a.count)] for k in range(2)]
     # more values than {count}: only count elements may be written
-    return exact + [exact[0] + [one[3], one[4]], exact[1] + [one[2]]]
+    # ... and the values in another sequence type than a list
+    return exact + [exact[0] + [one[3], one[4]], exact[1] + [one[2]], tuple(exact[1])] + ([range(3, 3 + a.count)] if a.typ != "F" else [])
 
 
 def shards(tier, seed):
-    return [("addr", part, image) for part in range(12) for image in (0, 1)] + [("invalid",), ("count-max",), ("refused",)] + [("addr", 0, 0, "debuglog"), ("addr", 7, 1, "debuglog"), ("refused", "debuglog")]
+    return [("addr", part, image) for part in range(12) for image in (0, 1)] + [("invalid",), ("count-max",), ("refused",)] + [("addr", 0, 0, "debuglog"), ("addr", 7, 1, "debuglog"), ("refused", "debuglog")] \
+        + [("invalid", "python-O"), ("count-max", "python-O"), ("addr", 3, 0, "python-O"), ("refused", "python-O")]
 
 
 def describe(tier, seed):
